@@ -2,18 +2,24 @@
 # usage: checks/run.sh <property id> [quick|thorough]
 cd "$(dirname "$0")/.." || exit 2
 export VERIF_TIER="${2:-${VERIF_TIER:-quick}}"
+# a check that aborts (extraction out of date, tool error, python exception) is UNDECIDED (exit 2), never a violation
+run() {
+  out=$(mktemp); "$@" > "$out" 2>&1; rc=$?; cat "$out"
+  if [ $rc -eq 1 ] && ! grep -q '^VIOLATION ' "$out"; then echo "UNDECIDED: the check aborted before deciding (extraction out of date / tool error): $(tail -1 "$out" | cut -c1-200)"; rc=2; fi
+  rm -f "$out"; exit $rc
+}
 case "$1" in
-  C01) exec python3-vt checks/c01.py ;;
-  C02) exec python3-vt checks/c02.py ;;
-  C03) exec python3-vt checks/c03.py ;;
-  C04) exec python3-vt checks/lookup.py C04 ;;
-  C05) exec python3-vt checks/c05.py ;;
-  C09) exec python3-vt checks/c09.py ;;
-  C10) exec python3-vt checks/c10.py ;;
-  C15) exec python3-vt checks/c15.py ;;
-  C17) exec python3-vt checks/c17.py ;;
-  C12) exec python3-vt checks/c12.py ;;
-  C13) exec python3-vt checks/c13.py ;;
-  C14) exec python3-vt checks/c14.py ;;
+  C01) run python3-vt checks/c01.py ;;
+  C02) run python3-vt checks/c02.py ;;
+  C03) run python3-vt checks/c03.py ;;
+  C04) run python3-vt checks/lookup.py C04 ;;
+  C05) run python3-vt checks/c05.py ;;
+  C09) run python3-vt checks/c09.py ;;
+  C10) run python3-vt checks/c10.py ;;
+  C15) run python3-vt checks/c15.py ;;
+  C17) run python3-vt checks/c17.py ;;
+  C12) run python3-vt checks/c12.py ;;
+  C13) run python3-vt checks/c13.py ;;
+  C14) run python3-vt checks/c14.py ;;
   *) echo "unknown property $1"; exit 2 ;;
 esac
